@@ -12,6 +12,7 @@ _min_obs_quick = {
     # (4) restart
     "restarts_checked": 18000, "restart_iterates_compared": 100000, "file_roundtrip_restarts": 4000,
     "restarts_with_denominator_read_from_file": 6000, "saved_iterates_read_back": 14000,
+    "same_object_resumes_checked": 1600, "same_object_resume_iterates_compared": 8000,
     # configuration classes
     "prior_none": 3000, "prior_quadratic": 1000, "prior_quadratic_kappa": 1000, "prior_quadratic_recompute_curvature": 800,
     "subsets_1": 700, "subsets_2_to_4": 2500, "subsets_5_or_more": 2500,
@@ -42,7 +43,9 @@ prop("C08",
            "Per case the uninterrupted run is observed at every sub-iteration (input of every sub-gradient call + final target) "
            "and restarted from a fresh reconstruction + objective function object at every (quick: <= 5 random) interruption "
            "point, from the in-memory iterate or the saved file, with the denominator recomputed or read from the file written "
-           "by the first run.  non-trivial = matrix with >= 30 non-zeros, data with counts, >= 2 updates compared with the "
+           "by the first run; in half of the cases without enforce-initial-positivity the SAME reconstruction + objective function "
+           "objects are run for k sub-iterations, told to start at k+1, set up again and run on, and the second leg must equal "
+           "the uninterrupted run bit for bit.  non-trivial = matrix with >= 30 non-zeros, data with counts, >= 2 updates compared with the "
            "reference; distinct = distinct case descriptor"),
      technique=("runtime monitoring: the real OSSPSReconstruction is run on generated problems whose system matrix is known explicitly; "
                 "every iterate is compared with a float64 reference of the documented update (computed float32 bands), the saved "
